@@ -302,7 +302,7 @@ def _gen_case(rng) -> Dict[str, Any]:
         items.append([gen.key_desc(k), leaf])
     kn = {"chunk": rng.choice([None, 1, 8, 16, 64]), "slab": rng.choice([None, None, 1, 16, 64]),
           "nobatch": rng.choice([False, False, True]), "budget": rng.choice([10 ** 9, 50, 1])}
-    return {"state": {"t": "dict", "items": items}, "knobs": kn, "real_fs": rng.random() < 0.25}
+    return {"state": {"t": "dict", "items": items}, "knobs": kn, "real_fs": rng.random() < 0.15}
 
 
 CORPUS = [
@@ -322,7 +322,7 @@ CORPUS = [
 def run(ctx: Ctx):
     for c in CORPUS:
         _one_snapshot(ctx, c, "corpus")
-    for i in range(ctx.n(36, 800)):
+    for i in range(ctx.n(30, 800)):
         if ctx.time_left() < 15:
             ctx.notes.append(f"stopped early at snapshot {i}")
             break
